@@ -132,7 +132,7 @@ def register(R):
         s, o = c.ref('self'), c.ref('other')
         e = L.entry_heap
         pred = lambda r, e=e: z3.Or(inside2(e, s, o, r), r == chref(e, s))
-        return [(f, pred) for f in NODEF]
+        return [(f, pred) for f in NODEF + ['_func']]
 
     use = dict(USE_VIEWS)
     use.update({N + 'ConfigNode.ayns.on_merge': 'child-merge', N + 'ConfigNode._replace_self': 'content-kept', N + 'ConfigNode._replace_other': 'content-kept',
@@ -142,7 +142,7 @@ def register(R):
                    ensures=[('key-loop', ens)], result=P.val('result', 'any'),
                    raises=[Raises('ValueError'), Raises('MergeError'), Raises('TypeError'), Raises('KeyError'), Raises('IndexError')],
                    loops={0: Loop(inv, mod_locals=['key', 'value', 'child', 'merge', 'possibly_new_child'], mod_where=mod_where)},
-                   props=('C02', 'C03'),
+                   props=('C02',),
                    opts={'use': use, 'verify_only': True, 'no_search': True, 'no_frame': True, 'assume_children_are_objects': True, 'skip_kinds': ('safety',),
                          'watch': {D + 'ConfigDict.ayns.remove_child': 'C02.drop-key'}, 'gates': {'C02.drop-key': gate_remove}, 'shards': 8},
                    note='older and newer node both plain mapping nodes, the newer one not deleting; list receivers and the deleting branch: bounded stand-ins'))
